@@ -124,6 +124,9 @@ def seed_task(task):
         return 0, {}
     # the 42 header is not edited (11 comment tokens): start after it
     start = next((i for i, t in enumerate(toks) if t.pos[0] >= 12), 0)
+    if mode.endswith("0"):
+        start = 0                 # sample files of the corpus carry no 42 header
+        mode = mode[:-1]
     out = {}
     n = 0
 
@@ -137,6 +140,13 @@ def seed_task(task):
             if key not in out or len(newtext) < len(out[key][0]):
                 out[key] = (newtext, f"{r[1]}; {kind} after {'.'.join(prev[-2:])}")
 
+    if mode == "lineprefix":
+        ls = text.split("\n")
+        for k in range(1 + part, len(ls), nparts):
+            base = "\n".join(ls[:k])
+            judge(base, "line-prefix", 0)
+            judge(base + "\n", "line-prefix+nl", 0)
+        return n, out
     if mode == "prefix":
         for i in range(start + part, len(toks) + 1, nparts):
             base = render_tokens(toks[:i])
@@ -213,7 +223,18 @@ def run(tier, seed):
     NP = 12
     etasks = [(f, t, "edit2" if (tier == "thorough" or i < 2) else "edit", 2 if tier == "quick" else 1, part, NP)
               for i, (f, t) in enumerate(edit_seeds) for part in range(NP)]
-    k0 = explore.pmap(_k0, seeds, chunksize=8)
+    # the sample inputs of norminette's own tests (constructs outside the model): every line-prefix of every sample,
+    # every token-prefix of a slice (thorough: of all), single-token edits of a slice
+    from .. import corpus
+    smp = list(corpus.samples())
+    seeds_k0 = seeds + smp
+    ptasks += [(f, t, "lineprefix0", 1, 0, 1) for f, t in smp]
+    tp = smp if tier == "thorough" else corpus.sample_slice(seed, 8)
+    ptasks += [(f, t, "prefix0", 1, part, 4) for f, t in tp for part in range(4)]
+    es = corpus.sample_slice(seed, 4 if tier == "thorough" else 32)
+    etasks += [(f, t, "edit0", 3, part, 6) for f, t in es for part in range(6)]
+    k0 = explore.pmap(_k0, seeds_k0, chunksize=8)
+    seeds = seeds_k0
     for (f, t), r in zip(seeds, k0):
         st.runs += 1
         if r:
